@@ -17,6 +17,7 @@ import math
 import sys
 import time
 
+from mc import refserver
 from mc.core import Outcome, SubCheck
 from mc.product import Concat, Product
 from props import pathcommon as pc
@@ -47,7 +48,7 @@ ASSUMPTIONS = [
     "prefix comparison",
 ]
 
-MENU_Q = ["5", "-", ".", "e", "1e", "2", "#", "é", "\x00", ",", "z", "L", "a", "h", "1.", "--1", "1e999"]
+MENU_Q = ["5", "-", ".", "e", "1e", "2", "#", "é", "\x00", ",", "z", "L", "a", "h", "1.", "--1", "1e999", "0", "-0"]
 MENU_T = MENU_Q + [" ", "M", "+", "Z1", "1e5", "T", "S", "v", "Q", " ", "0x1", "1e999", "nan", "inf"]
 
 
@@ -418,6 +419,7 @@ class Sequels(SubCheck):
         self.al = [x for x in al if not (x in seen or seen.add(x))]
         self.space = Product(self.al, self.al)
         self.bounds = dict(strings=len(self.al), history=2)
+        self._ref = refserver.RefServer(lambda d: parse_result(svg, d))
 
     def size(self):
         return len(self.space)
@@ -430,8 +432,8 @@ class Sequels(SubCheck):
         out = Outcome()
         svg = self.svg
         a, b = case["first"], case["d"]
-        parse_result(svg, "M0,0 L1,1 z")
-        base = parse_result(svg, b)
+        # what b gives on its own: asked of a process that has parsed nothing but such reference requests
+        base = self._ref.call(b)
         out.transitions += 2
         parse_result(svg, a)
         got = parse_result(svg, b)
